@@ -289,6 +289,21 @@ class Sym:
             return sym("I" if x[2] == "index" else "K")
         if k == "field" and x[2] == "0" and x[1][0] == "bin":
             return self.term(x[1], depth + 1)
+        if k == "field" and x[2] == "0" and x[1][0] == "downcast" and x[1][2] == "Some":
+            # the payload of `a.checked_sub(b)` / `a.checked_add(b)` on its Some edge
+            cs = strip(x[1][1], through_calls=False)
+            for _ in range(4):
+                if cs[0] == "local":
+                    cs = strip(self.b.expr_of_local(cs[1]), through_calls=False)
+                elif cs[0] in ("ref", "deref"):
+                    cs = cs[1]
+                else:
+                    break
+            if cs[0] == "call" and isinstance(cs[1], str) and len(cs[3]) == 2:
+                if re.search(r"::checked_sub$", cs[1]):
+                    return ("sub", self.term(cs[3][0], depth + 1), self.term(cs[3][1], depth + 1))
+                if re.search(r"::checked_add$", cs[1]):
+                    return ("add", self.term(cs[3][0], depth + 1), self.term(cs[3][1], depth + 1))
         if k == "bin":
             if re.match(r"Add", x[1]):
                 return ("add", self.term(x[2], depth + 1), self.term(x[3], depth + 1))
@@ -448,6 +463,12 @@ class Sym:
                 if fct[2] == frozenset(["Some"]):
                     return [[("Eq", sym("HASOLD"), ONE)]]
                 return None
+            if subj[0] == "call" and isinstance(subj[1], str) and re.search(r"::checked_sub$", subj[1]) and len(subj[3]) == 2:
+                ta, tb = self.term(subj[3][0]), self.term(subj[3][1])
+                if fct[2] == frozenset(["Some"]):
+                    return [[("Ge", ta, tb)]]
+                if fct[2] == frozenset(["None"]):
+                    return [[("Lt", ta, tb)]]
             if subj[0] == "call" and ecall_matches(subj, r"Ord>?::cmp$"):
                 return None  # the accompanying cmp fact carries the information
             if self.mode == "translator" and ((subj[0] == "param" and subj[1] == 1) or contains(subj, lambda y: y[0] == "param" and y[1] == 1) and not contains(subj, lambda y: y[0] == "call")):
